@@ -5,8 +5,15 @@ import splitcommon as SC
 ENGINE = "split"
 RULE = ("grammar documents whose entry keys, string keys and field names are drawn from pools of 2-3 names so that collisions of every "
         "multiplicity and interleaving occur (entry/entry, string/string, entry and string with the same name, duplicates of a "
-        "duplicate-field entry); distinct = distinct document; non-trivial = the document has at least one collision")
-TRUSTED = ["the ground truth (source blocks) is produced by the generator"]
+        "duplicate-field entry); distinct = distinct document; non-trivial = the document has at least one collision. "
+        "Stream `history`: 1-3 such documents parsed into ONE library (Splitter.split(library=), parse_string(.., library=) with an empty "
+        "and with the default stack, a document possibly more than once) interleaved with Library.add / remove / replace calls in block "
+        "and list form (members, the blocks wrapped in failed blocks, previous_blocks, blocks removed earlier, equal-but-not-identical "
+        "copies, fresh blocks with pool keys; calls that are refused or raise included); after EVERY step the library is compared with "
+        "the first-wins history stated by the oracle; non-trivial = a collision or a refused call occurred")
+TRUSTED = ["the ground truth (source blocks) is produced by the generator",
+           "stream `history`: which member a remove/replace argument denotes is decided with the library's own Block.__eq__ (C19's subject); "
+           "steps whose argument equals more than one member are left out"]
 ASSUMPTIONS = []
 
 
@@ -30,7 +37,61 @@ def generate(rng, tier):
         fn = rng.sample(["t", "T", "a", "author", "year"], rng.randint(1, 3))
         text, items = G.gen_doc(rng, max_items=rng.choice([3, 6, 10]), depth=1, entry_keys=ek, string_keys=sk, field_names=fn)
         cases.append({"stream": "G-dup", "input": {"text": text, "items": items}})
+    # histories: documents parsed into one library, interleaved with add / remove / replace calls (short histories first)
+    n_hist = 700 if tier == "quick" else 12000
+    hist = [gen_history(rng, 2 + (i * 7) // n_hist) for i in range(n_hist)]
+    cases.extend({"stream": "history", "input": h} for h in hist)
     return cases
+
+
+def gen_target(rng, keys):
+    """Denotes (at run time, indices modulo what exists) the block handed to add / remove / replace."""
+    r = rng.random()
+    if r < 0.22:
+        return ["blk", rng.randrange(64)]                 # a member of the library
+    if r < 0.42:
+        return ["inner", rng.randrange(64)]               # the block wrapped in a failed block (not a member)
+    if r < 0.50:
+        return ["prev", rng.randrange(64)]                # the previous_block of a duplicate-key block
+    if r < 0.60:
+        return ["gone", rng.randrange(64)]                # a block removed / replaced earlier in the history
+    if r < 0.72:
+        return ["twin", rng.randrange(64)]                # an equal but not identical copy of a member
+    return ["fresh", rng.choice(["entry", "entry", "entry0", "string", "string", "preamble", "comment"]), rng.choice(keys),
+            rng.choice(["{x}", '"y"', "{z w}"])]
+
+
+def gen_history(rng, n_steps):
+    ek = rng.sample(["k1", "k2", "K1", "a", "b"], rng.randint(1, 3))
+    sk = rng.sample(["k1", "s", "a"], rng.randint(1, 2))
+    fn = rng.sample(["t", "T", "a", "author", "year"], rng.randint(1, 3))
+    keys = ek + sk
+    docs = []
+    for _ in range(rng.randint(1, 3)):
+        for _try in range(3):
+            text, items = G.gen_doc(rng, max_items=rng.choice([2, 3, 5]), depth=1, entry_keys=ek, string_keys=sk, field_names=fn)
+            if items:
+                break
+        docs.append({"text": text, "items": items})
+
+    def parse_step(i):
+        return ["parse", i, rng.choice(["split", "empty", "empty", "empty", "default"])]
+    steps = [parse_step(0)]
+    while len(steps) < n_steps:
+        r = rng.random()
+        last = len(steps) == n_steps - 1
+        if r < (0.7 if last else 0.25):
+            steps.append(parse_step(rng.randrange(len(docs))))
+        elif r < 0.45:
+            n = rng.choice([1, 1, 2, 3])
+            steps.append(["add", "one" if n == 1 and rng.random() < 0.5 else "list", [gen_target(rng, keys) for _ in range(n)],
+                          rng.random() < 0.35])
+        elif r < 0.78:
+            n = rng.choice([1, 1, 1, 2, 3])
+            steps.append(["remove", "one" if n == 1 and rng.random() < 0.7 else "list", [gen_target(rng, keys) for _ in range(n)]])
+        else:
+            steps.append(["replace", gen_target(rng, keys), gen_target(rng, keys), rng.choice([None, True, False])])
+    return {"docs": docs, "steps": steps}
 
 
 def impl_incremental(case):
@@ -80,7 +141,314 @@ def impl_incremental(case):
     return rec
 
 
+def impl_history(case):
+    """Oracle-only.  The oracle keeps its own account of the history: `slots` (the blocks the library must hold, in order) and `live`
+    ((class, key) -> the first block, the one registered by key).  Insertion (parsing, add, the second half of replace): a block whose
+    (class, key) is live becomes, at its own position, a DuplicateBlockKeyBlock exposing the key, the live block and the complete
+    duplicate; otherwise it is live itself.  remove / replace of a block that is not a member is refused and changes nothing, as
+    does a replace refused for a duplicate key (fail_on_duplicate_key, the default).  Whether and what a call raises is not judged."""
+    import copy
+    import hashlib
+    import json
+    import bibtexparser
+    from bibtexparser.splitter import Splitter
+    from bibtexparser.model import Entry, String, Field, Preamble, ExplicitComment, ParsingFailedBlock
+    inp = case["input"]
+    docs, steps = inp["docs"], inp["steps"]
+    slots, live, gone = [], {}, []
+    tags = set()
+    log = []
+
+    def cls_of(x):
+        return "Entry" if isinstance(x, Entry) else "String" if isinstance(x, String) else None
+
+    def tn(x):
+        return type(x).__name__
+
+    def desc(x):
+        return "%s %r" % (tn(x), getattr(x, "key", None))
+
+    def fresh(kind, key, val):
+        if kind == "entry":
+            return Entry("article", key, [Field("t", val)])
+        if kind == "entry0":
+            return Entry("misc", key, [])
+        if kind == "string":
+            return String(key, val)
+        if kind == "preamble":
+            return Preamble(val)
+        return ExplicitComment(val)
+
+    def resolve(t, inserting):
+        x = None
+        if t[0] == "fresh":
+            return fresh(t[1], t[2], t[3])
+        if t[0] in ("blk", "twin") and slots:
+            x = slots[t[1] % len(slots)]
+            if t[0] == "twin":
+                x = copy.deepcopy(x)
+        elif t[0] in ("inner", "prev"):
+            pool = [b for b in slots if tn(b) == "DuplicateBlockKeyBlock" or (t[0] == "inner" and not inserting and isinstance(b, ParsingFailedBlock))]
+            if pool:
+                b = pool[t[1] % len(pool)]
+                x = b.ignore_error_block if t[0] == "inner" else b.previous_block
+        elif t[0] == "gone" and gone:
+            x = gone[t[1] % len(gone)]
+        if inserting and isinstance(x, ParsingFailedBlock):
+            # failed blocks are not inserted a second time (the same wrapper twice would make positions ambiguous)
+            x = x.ignore_error_block if tn(x) == "DuplicateBlockKeyBlock" else None
+        if x is None:
+            x = fresh("entry", "k1", "{x}")
+        return x
+
+    def matches(lst, t):
+        return [i for i, b in enumerate(lst) if b is t or b == t]
+
+    def insert_expect(x):
+        """first wins: what the library must hold for the inserted block x -> ('obj', x) | ('dup', x, first)"""
+        c = cls_of(x)
+        if c and (c, x.key) in live:
+            tags.add("history:collision")
+            return ("dup", x, live[(c, x.key)])
+        return ("obj", x)
+
+    def adopt(exp, a, where):
+        """Compare the block `a` held by the library with the expectation; returns (problem, block to keep in slots)."""
+        if exp[0] == "obj":
+            if a is not exp[1]:
+                return "%s: the library holds %s where the inserted %s is expected (no live block with its key)" % (where, desc(a), desc(exp[1])), a
+            c = cls_of(a)
+            if c:
+                live[(c, a.key)] = a
+            return None, a
+        x, first = exp[1], exp[2]
+        if tn(a) != "DuplicateBlockKeyBlock":
+            return "%s: %s repeats the key of a live block but the library holds %s, not a failed duplicate-key block" % (where, desc(x), desc(a)), a
+        if a.key != x.key or a.previous_block is not first or a.ignore_error_block is not x:
+            return ("%s: duplicate-key block for %s exposes key %r, previous_block %s%s, duplicate %s%s" %
+                    (where, desc(x), a.key, desc(a.previous_block), "" if a.previous_block is first else " (not the live block)",
+                     desc(a.ignore_error_block), "" if a.ignore_error_block is x else " (not the inserted block)")), a
+        return None, a
+
+    def check_state(lib, when):
+        bs = lib.blocks
+        seen = {}
+        for i, b in enumerate(bs):
+            c = cls_of(b)
+            if c:
+                if (c, b.key) in seen:
+                    return "%s: blocks %d and %d are both live %s blocks with key %r" % (when, seen[(c, b.key)], i, c, b.key)
+                seen[(c, b.key)] = i
+        if len(bs) != len(slots):
+            return "%s: the library holds %d blocks, %d expected (%r, expected %r)" % (when, len(bs), len(slots), [desc(b) for b in bs][:12],
+                                                                                      [desc(b) for b in slots][:12])
+        for i, (a, e) in enumerate(zip(bs, slots)):
+            if a is not e:
+                return "%s: block %d is %s, expected %s (another object)" % (when, i, desc(a), desc(e))
+        for name, d, c in (("entries_dict", lib.entries_dict, "Entry"), ("strings_dict", lib.strings_dict, "String")):
+            want = {k[1]: v for k, v in live.items() if k[0] == c}
+            if set(d) != set(want) or any(d[k] is not want[k] for k in want):
+                return ("%s: %s has keys %r but the live %s blocks (first of each key) have keys %r%s" %
+                        (when, name, sorted(d), c, sorted(want), "" if set(d) != set(want) else " and other objects"))
+        if [id(b) for b in lib.entries] != [id(b) for b in slots if cls_of(b) == "Entry"] or \
+                [id(b) for b in lib.strings] != [id(b) for b in slots if cls_of(b) == "String"]:
+            return "%s: Library.entries / strings are not the live blocks in block order" % when
+        if [id(b) for b in lib.failed_blocks] != [id(b) for b in slots if isinstance(b, ParsingFailedBlock)]:
+            return "%s: Library.failed_blocks are not the failed blocks in block order" % when
+        return None
+
+    def parsed_problem(b, it, strict, where):
+        """the new block b against its source block; registers / looks up the live block.  Returns a problem or None."""
+        cn = tn(b)
+
+        def same_fields(e):
+            if [f.key for f in e.fields] != [f[0] for f in it["fields"]]:
+                return False
+            return not strict or [f.value for f in e.fields] == [f[1] for f in it["fields"]]
+        if strict and it["kind"] == "entry" and (b.raw != it["raw"] or b.start_line != it["line"]):
+            return "%s: raw / start line differ from the source block" % where
+        if it["kind"] == "entry":
+            names = [f[0] for f in it["fields"]]
+            dupf = sorted(set(n for n in names if names.count(n) > 1))
+            if dupf:
+                tags.add("history:collision")
+                e = b.ignore_error_block if cn == "DuplicateFieldKeyBlock" else None
+                if e is None or tn(e) != "Entry" or sorted(b.duplicate_keys) != dupf or e.key != it["key"] or not same_fields(e):
+                    return "%s: entry with repeated field keys %r is %s / does not hold every field occurrence in order" % (where, dupf, cn)
+                return None
+        if it["kind"] in ("entry", "string"):
+            c = "Entry" if it["kind"] == "entry" else "String"
+            if (c, it["key"]) in live:
+                tags.add("history:collision")
+                first = live[(c, it["key"])]
+                if cn != "DuplicateBlockKeyBlock":
+                    return "%s: later %s with key %r is a %s although %s is live in the library" % (where, c, it["key"], cn, desc(first))
+                d = b.ignore_error_block
+                if b.key != it["key"] or b.previous_block is not first or tn(d) != c or d.key != it["key"] \
+                        or (c == "Entry" and not same_fields(d)) or (c == "String" and strict and d.value != it["value"]):
+                    return ("%s: duplicate-key block of %s %r: key %r, previous_block %s%s, duplicate %s / incomplete" %
+                            (where, c, it["key"], b.key, desc(b.previous_block), "" if b.previous_block is first else " (not the live block)", desc(d)))
+                return None
+            if cn != c or b.key != it["key"] or (c == "Entry" and not same_fields(b)) or (c == "String" and strict and b.value != it["value"]):
+                return "%s: first %s with key %r (no live block with this key in the library) is %s" % (where, c, it["key"], desc(b))
+            live[(c, b.key)] = b
+            return None
+        want = {"preamble": "Preamble", "comment": "ExplicitComment", "freetext": "ImplicitComment"}[it["kind"]]
+        if cn != want:
+            return "%s is %s, expected %s" % (where, cn, want)
+        return None
+
+    lib = None
+    problem = None
+    for n, st in enumerate(steps):
+        raised = None
+        if st[0] == "parse":
+            d, how = docs[st[1]], st[2]
+            when = "step %d (%s of document %d%s)" % (n, {"split": "Splitter.split", "empty": "parse_string with an empty stack",
+                                                          "default": "parse_string with the default stack"}[how], st[1],
+                                                      "" if lib is None else ", library=the library")
+            try:
+                if how == "split":
+                    ret = Splitter(d["text"]).split() if lib is None else Splitter(d["text"]).split(library=lib)
+                else:
+                    kw = {} if how == "default" else {"parse_stack": []}
+                    if lib is not None:
+                        kw["library"] = lib
+                    ret = bibtexparser.parse_string(d["text"], **kw)
+            except Exception as e:  # noqa: BLE001
+                problem = "%s raised %s" % (when, type(e).__name__)
+                break
+            if lib is not None and how != "default" and ret is not lib:
+                problem = "%s returned another library" % when
+                break
+            lib = ret
+            bs = lib.blocks
+            if len(bs) != len(slots) + len(d["items"]):
+                problem = "%s: %d source blocks added to %d blocks give %d blocks" % (when, len(d["items"]), len(slots), len(bs))
+                break
+            for j, it in enumerate(d["items"]):
+                b = bs[len(slots)]
+                problem = parsed_problem(b, it, how != "default", "%s: source block %d (%s %r), block %d of the library" %
+                                         (when, j, it["kind"], it.get("key"), len(slots)))
+                if problem:
+                    break
+                slots.append(b)
+            if problem:
+                break
+            log.append("parse%d" % st[1])
+        elif lib is None:
+            continue
+        elif st[0] == "add":
+            xs = [resolve(t, True) for t in st[2]]
+            when = "step %d (add(%s%s))" % (n, ", ".join(desc(x) for x in xs), ", fail_on_duplicate_key=True" if st[3] else "")
+            # the expectation for a later block depends on the earlier ones of the same call: stated one by one below
+            try:
+                lib.add(xs[0] if st[1] == "one" else list(xs), **({"fail_on_duplicate_key": True} if st[3] else {}))
+            except Exception as e:  # noqa: BLE001
+                raised = type(e).__name__
+            bs = lib.blocks
+            if len(bs) != len(slots) + len(xs):
+                problem = "%s%s: %d blocks added to %d blocks give %d blocks" % (when, " raised %s" % raised if raised else "", len(xs), len(slots), len(bs))
+                break
+            for j, x in enumerate(xs):
+                problem, keep = adopt(insert_expect(x), bs[len(slots)], "%s, block %d of the library" % (when, len(slots)))
+                if problem:
+                    break
+                slots.append(keep)
+            if problem:
+                break
+            log.append("add%d%s" % (len(xs), "!" + raised if raised else ""))
+        elif st[0] == "remove":
+            ts = [resolve(t, False) for t in st[2]]
+            when = "step %d (remove(%s%s))" % (n, "" if st[1] == "one" else "list: ", ", ".join(desc(t) for t in ts))
+            remaining = list(slots)
+            refused = ambiguous = False
+            for t in ts:
+                m = matches(remaining, t)
+                if len(m) > 1:
+                    ambiguous = True
+                    break
+                if not m:
+                    refused = True
+                    break
+                del remaining[m[0]]
+            if ambiguous:
+                tags.add("history:ambiguous-step-left-out")
+                continue
+            try:
+                lib.remove(ts[0] if st[1] == "one" else list(ts))
+            except Exception as e:  # noqa: BLE001
+                raised = type(e).__name__
+            if refused:
+                tags.add("history:refused-remove")
+                when += " - not all are members, nothing may change%s" % (" (raised %s)" % raised if raised else "")
+            else:
+                for b in slots:
+                    if not any(b is r for r in remaining):
+                        gone.append(b)
+                        c = cls_of(b)
+                        if c and live.get((c, b.key)) is b:
+                            del live[(c, b.key)]
+                slots[:] = remaining
+                when += " raised %s" % raised if raised else ""
+            log.append("remove%d%s" % (len(ts), "!" + raised if raised else ""))
+        elif st[0] == "replace":
+            old, new = resolve(st[1], False), resolve(st[2], True)
+            fail = True if st[3] is None else st[3]
+            when = "step %d (replace(%s, %s%s))" % (n, desc(old), desc(new), "" if st[3] is None else ", fail_on_duplicate_key=%r" % st[3])
+            m = matches(slots, old)
+            if len(m) > 1:
+                tags.add("history:ambiguous-step-left-out")
+                continue
+            try:
+                lib.replace(old, new, **({} if st[3] is None else {"fail_on_duplicate_key": st[3]}))
+            except Exception as e:  # noqa: BLE001
+                raised = type(e).__name__
+            if not m:
+                tags.add("history:refused-replace")
+                when += " - the old block is not a member, nothing may change%s" % (" (raised %s)" % raised if raised else "")
+            else:
+                i = m[0]
+                orig = slots[i]
+                c = cls_of(orig)
+                if c and live.get((c, orig.key)) is orig:
+                    del live[(c, orig.key)]
+                exp = insert_expect(new)
+                bs = lib.blocks
+                if len(bs) != len(slots):
+                    problem = "%s%s: the library holds %d blocks, %d expected" % (when, " raised %s" % raised if raised else "", len(bs), len(slots))
+                    break
+                if exp[0] == "dup" and fail:
+                    # refused for the duplicate key: position i holds the old block again (the member or the equal block handed in)
+                    tags.add("history:refused-replace")
+                    a = bs[i]
+                    if a is not orig and a is not old:
+                        problem = "%s - refused for the duplicate key: block %d is %s, expected the old block %s back" % (when, i, desc(a), desc(orig))
+                        break
+                    slots[i] = a
+                    if c:
+                        live[(c, a.key)] = a
+                    when += " - refused for the duplicate key, nothing may change%s" % (" (raised %s)" % raised if raised else "")
+                else:
+                    problem, keep = adopt(exp, bs[i], "%s, block %d of the library" % (when, i))
+                    if problem:
+                        break
+                    slots[i] = keep
+                    gone.append(orig)
+            log.append("replace%s" % ("!" + raised if raised else ""))
+        problem = check_state(lib, "after " + when)
+        if problem:
+            break
+    tags = sorted(tags)
+    return {"sx_in": None, "sx_out": None, "oracle": {"ok": problem is None, "detail": problem or ""},
+            "nontrivial": any(t in ("history:collision", "history:refused-remove", "history:refused-replace") for t in tags),
+            "key": hashlib.sha1(json.dumps(inp, sort_keys=True).encode()).hexdigest(),
+            "tags": ["history"] + tags, "summary": (" ".join(log) + " -> " + " ".join(tn(b)[:6] for b in slots))[:200]}
+
+
 def impl(case):
+    if case.get("stream") == "history" or "steps" in case["input"]:
+        return impl_history(case)
     if "t1" in case["input"]:
         return impl_incremental(case)
     text, items = case["input"]["text"], case["input"]["items"]
